@@ -241,6 +241,7 @@ def make_unit(iset, cube_name, cube_pred, memarch='PMSA', nregions=1, props=('C1
                 return v
             for r in rows:
                 st0 = dict(init)
+                st0['mem'] = mem.init
                 exp, s_unpred, s_undef = SS.spec_step(r, st0, instr, 'arm' if iset == 'arm' else 'thumb', oplen, fix=fix)
                 skip = lor(lnot(r.match(instr)), s_unpred, s_undef)
                 named = []
@@ -248,7 +249,7 @@ def make_unit(iset, cube_name, cube_pred, memarch='PMSA', nregions=1, props=('C1
                     if k in SCRATCH:
                         continue
                     named.append((k, lor(skip, values_eq(v, exp[k]))))
-                named.append(('mem', lor(skip, sym.SymBool(mem.term == mem.init))))
+                named.append(('mem', lor(skip, sym.SymBool(mem.term == exp['mem']))))
                 ob = eng.oblige_all('post', '%s: final state == architectural decode+operation (all leaves; frame)' % tag, named)
                 ob.props = [r.family or fam, dprop]
                 ob = eng.oblige('post.unpred', '%s: not executed normally where the architecture says UNDEFINED' % tag,
